@@ -11,6 +11,8 @@
      (ssock VIA (nCONN xDATA PF) (SOP..) (nCONN xDATA PF) (SOP..))
                                                       GetSocket, dirty calls, Close, GetSocket, later
      (sctx  VIA (nSESS ((xK xV)..)) (COP..) (COP..))  getContext, dirty ops, putContext, getContext, later
+     (spool VIA ((sget)|(sput nI)..))                 overlapping holders of pooled messages; per get:
+                                                      sfree (held by nobody) | sheld
      (scopy VIA ((sa|sb HOP)..))                      two containers, calls and CopyTo in both directions;
                                                       observation after each call: ((A pairs) (B pairs))
    observations = the flat list of everything the later calls returned. *)
@@ -237,10 +239,31 @@ Definition dec_sided (v : val) : option (side * hop) :=
   | _ => None
   end.
 
+(* pooled objects: the runtime's choice is taken to be "the most recently pooled one" *)
+Definition dec_pop (v : val) : option pop :=
+  match v with
+  | VL [s; VN i] => if sym_eqb s "put" then Some (PPut (N.to_nat i)) else None
+  | VL [s] => if sym_eqb s "get" then Some (PGet (Some 0%nat)) else None
+  | _ => None
+  end.
+Fixpoint pool_obs (st : pstate) (ops : list pop) : list val :=
+  match ops with
+  | [] => []
+  | PGet c :: r =>
+      (if existsb (Nat.eqb (pget_obj st c)) (p_held st) then vsym "held" else vsym "free")
+      :: pool_obs (pstep st (PGet c)) r
+  | o :: r => pool_obs (pstep st o) r
+  end.
+
 Definition run (inp : val) : option val :=
   match inp with
   | VL [kind; _; VL l] =>
-      if sym_eqb kind "copy" then
+      if sym_eqb kind "pool" then
+        match dec_list dec_pop l with
+        | Some ops => Some (VL (pool_obs pool_new ops))
+        | None => None
+        end
+      else if sym_eqb kind "copy" then
         match dec_list dec_sided l with
         | Some ops => Some (VL (snd (wrun gpol false world_empty ops)))
         | None => None
